@@ -13,11 +13,32 @@ def callOK (fn : String) (args : List Expr) : Bool :=
   if isMethodName fn then !args.isEmpty
   else (match checkFunction fn with | .ok _ => true | .error _ => false)
 
+/-- components after the first of a `types.NewPattern` result: all carry a wildcard; an empty literal only in
+    last position (the same predicate as `C01L.wfTail`, Lemmas/C01Pattern.lean) -/
+def patTailOK : Pattern → Bool
+  | [] => true
+  | c :: rest => c.wildcard && (!c.literal.isEmpty || rest.isEmpty) && patTailOK rest
+
+/-- the literal chunk is valid UTF-8: it decodes, and the decoded characters encode to the same bytes
+    (Go strings with invalid UTF-8 are outside the model) -/
+def litUtf8OK (c : PatComp) : Bool :=
+  match ofUtf8 c.literal with
+  | some l => utf8 l == c.literal
+  | none => false
+
+/-- **`NewPattern` normal form** of a pattern literal: at least one component (`ParsePattern` never returns the
+    component-less `Pattern{}`: the text `""` is read as the single empty literal), a component without wildcard only
+    in first position, an empty literal only in last position (= `WFPattern`, the invariant `types.NewPattern`
+    establishes: `C07_patOK_iff`), every literal chunk valid UTF-8 -/
+def patOK : Pattern → Bool
+  | [] => false
+  | c :: rest => (!c.literal.isEmpty || rest.isEmpty) && patTailOK rest && (c :: rest).all litUtf8OK
+
 mutual
 /-- the fragment of expressions for which the round trip `parse ∘ render` is PROVED.
-    Not in the fragment (`false`): `like`, literals of sets / records / extension values, entity types that
+    Not in the fragment (`false`): literals of sets / records / extension values, entity types that
     are not paths of identifiers, longs outside int64, records with duplicate keys, unknown
-    or receiver-less extension calls. -/
+    or receiver-less extension calls, `like` patterns outside `NewPattern` normal form (`patOK`). -/
 def inFrag (full : Bool) : Expr → Bool
   | .lit (.bool _) => true
   | .lit (.long n) => decide (-9223372036854775808 ≤ n) && decide (n ≤ 9223372036854775807)
@@ -32,7 +53,7 @@ def inFrag (full : Bool) : Expr → Bool
   | .ite c t e => inFrag full c && inFrag full t && inFrag full e
   | .access e _ => inFrag full e
   | .has e _ => inFrag full e
-  | .like .. => false
+  | .like e p => inFrag full e && patOK p
   | .is e ty => inFrag full e && isPathName ty
   | .isIn e ty r => inFrag full e && isPathName ty && inFrag full r
   | .set es => inFragList full es
@@ -98,7 +119,7 @@ def inFragGo : Expr → Bool
   | .ite c t e => inFragGo c && inFragGo t && inFragGo e
   | .access e _ => inFragGo e
   | .has e _ => inFragGo e
-  | .like .. => false
+  | .like e p => inFragGo e && patOK p
   | .is e ty => inFragGo e && isPathName ty
   | .isIn e ty r => inFragGo e && isPathName ty && inFragGo r
   | .set es => inFragGoList es
@@ -116,5 +137,127 @@ end
 def policyOKGo (p : Policy) : Bool :=
   headOKb (headOf p) && p.position == {} && p.conditions.all (fun c => inFragGo c.2)
 
+/-! ## C08: `NodeValue`s holding sets, records and extension values
+
+  Such a node has no literal syntax: `MarshalCedar` writes it as a set literal / record literal / constructor call, and
+  the parser reads THAT tree back (`valExpr`): not the identical AST, but an expression that evaluates to the value. -/
+
+def inI64B (n : Int) : Bool := decide (-9223372036854775808 ≤ n) && decide (n ≤ 9223372036854775807)
+
+/-- ip values whose text form parses back (`C12_ip_roundtrip_iff`): what `netip` can hold, except the IPv4-mapped block -/
+def ipOK (a : IPNet) : Bool :=
+  if a.v6 then decide (a.addr < 2 ^ 128) && decide (a.bits ≤ 128) && !(a.addr / 2 ^ 32 == 0xffff)
+  else decide (a.addr < 2 ^ 32) && decide (a.bits ≤ 32)
+
+/-- no two members are `Equal` (`seen` = the members before): what `types.NewSet` guarantees -/
+def noDupB : List Value → List Value → Bool
+  | _, [] => true
+  | seen, x :: xs => !Value.memL x seen && noDupB (x :: seen) xs
+
+mutual
+/-- values covered by the C08 value theorems: built from booleans, longs (int64), strings, entity uids (type = grammar
+    path), duplicate-free sets (in ANY member order), records listed by strictly ascending key, and extension values
+    in the range where the C12 round trip `parse (print x) = x` is proved (decimal / duration: int64; datetime: from
+    the source's `minDatetime` on; ip: valid, not IPv4-mapped) -/
+def valOK : Value → Bool
+  | .bool _ => true
+  | .long n => inI64B n
+  | .str _ => true
+  | .entity ty _ => isPathName ty
+  | .set xs => valsOK xs && noDupB [] xs
+  | .record kvs => kvValsOK kvs && keysAsc kvs
+  | .decimal d => inI64B d
+  | .duration d => inI64B d
+  | .datetime t => decide (Scalars.minDatetimeMs ≤ t) && decide (t ≤ 9223372036854775807)
+  | .ip a => ipOK a
+def valsOK : List Value → Bool
+  | [] => true
+  | v :: vs => valOK v && valsOK vs
+def kvValsOK : List (String × Value) → Bool
+  | [] => true
+  | (_, v) :: rest => valOK v && kvValsOK rest
+end
+
+mutual
+/-- the expression a `NodeValue` is read back as: itself for booleans, longs, strings and entity uids; a set / record
+    literal of the members' expressions; the constructor call on the value's text form -/
+def valExpr : Value → Expr
+  | .bool b => .lit (.bool b)
+  | .long n => .lit (.long n)
+  | .str s => .lit (.str s)
+  | .entity ty id => .lit (.entity ty id)
+  | .set xs => .set (valExprs xs)
+  | .record kvs => .record (valExprKVs kvs)
+  | .decimal d => .call "decimal" [.lit (.str (Scalars.printDecimal d))]
+  | .datetime t => .call "datetime" [.lit (.str (Scalars.printDatetime t))]
+  | .duration d => .call "duration" [.lit (.str (Scalars.printDuration d))]
+  | .ip a => .call "ip" [.lit (.str (Scalars.printIP a))]
+def valExprs : List Value → List Expr
+  | [] => []
+  | v :: vs => valExpr v :: valExprs vs
+def valExprKVs : List (String × Value) → List (String × Expr)
+  | [] => []
+  | (k, v) :: rest => (k, valExpr v) :: valExprKVs rest
+end
+
+mutual
+/-- every `NodeValue` replaced by the expression it is read back as -/
+def desugar : Expr → Expr
+  | .lit v => valExpr v
+  | .var v => .var v
+  | .unop op e => .unop op (desugar e)
+  | .binop op l r => .binop op (desugar l) (desugar r)
+  | .ite c t e => .ite (desugar c) (desugar t) (desugar e)
+  | .access e a => .access (desugar e) a
+  | .has e a => .has (desugar e) a
+  | .like e p => .like (desugar e) p
+  | .is e ty => .is (desugar e) ty
+  | .isIn e ty r => .isIn (desugar e) ty (desugar r)
+  | .set es => .set (desugarList es)
+  | .record kes => .record (desugarKVs kes)
+  | .call fn args => .call fn (desugarList args)
+def desugarList : List Expr → List Expr
+  | [] => []
+  | e :: es => desugar e :: desugarList es
+def desugarKVs : List (String × Expr) → List (String × Expr)
+  | [] => []
+  | (k, e) :: kes => (k, desugar e) :: desugarKVs kes
+end
+
+def desugarConds : List (Bool × Expr) → List (Bool × Expr)
+  | [] => []
+  | (w, e) :: rest => (w, desugar e) :: desugarConds rest
+
+def desugarPolicy (p : Policy) : Policy := { p with conditions := desugarConds p.conditions }
+
+mutual
+/-- `inFragGo` with every value of `valOK` allowed as a `NodeValue` -/
+def inFragGoV : Expr → Bool
+  | .lit v => valOK v
+  | .var _ => true
+  | .unop .not e => inFragGoV e
+  | .unop .neg e => inFragGoV e && !isNonNegLong e
+  | .unop .isEmpty e => inFragGoV e
+  | .binop _ l r => inFragGoV l && inFragGoV r
+  | .ite c t e => inFragGoV c && inFragGoV t && inFragGoV e
+  | .access e _ => inFragGoV e
+  | .has e _ => inFragGoV e
+  | .like e p => inFragGoV e && patOK p
+  | .is e ty => inFragGoV e && isPathName ty
+  | .isIn e ty r => inFragGoV e && isPathName ty && inFragGoV r
+  | .set es => inFragGoVList es
+  | .record kes => inFragGoVKVs kes && decide ((kes.map (·.1)).Nodup)
+  | .call fn args => callOK fn args && inFragGoVList args
+def inFragGoVList : List Expr → Bool
+  | [] => true
+  | e :: es => inFragGoV e && inFragGoVList es
+def inFragGoVKVs : List (String × Expr) → Bool
+  | [] => true
+  | (_, e) :: kes => inFragGoV e && inFragGoVKVs kes
+end
+
+/-- policies on which `MarshalCedar` is proved to be read back to `desugarPolicy p` (C08_marshal_parses_values_partial) -/
+def policyOKGoV (p : Policy) : Bool :=
+  headOKb (headOf p) && p.position == {} && p.conditions.all (fun c => inFragGoV c.2)
 
 end CedarGo.Text
